@@ -128,7 +128,12 @@ fn main() {
                     diff_suites::c13_diff_suite(&ctx, &mut o);
                     o
                 }
-                "C01" | "C02" | "C03" | "C04" | "C06" | "C07" | "C08" | "C09" | "C10" | "C12"
+                "C03" => {
+                    let mut o = engine_suite(&ctx);
+                    c18::c03_chaotic(&ctx, &mut o, argn(&args, "--chaotic", 0));
+                    o
+                }
+                "C01" | "C02" | "C04" | "C06" | "C07" | "C08" | "C09" | "C10" | "C12"
                 | "C14" | "C15" => engine_suite(&ctx),
                 "C05" => c05::c05_suite(&ctx),
                 "C18" => {
@@ -211,12 +216,12 @@ fn main() {
                 }
             }
             let mut extra = std::collections::BTreeMap::new();
-            for k in ["clone-at", "fork-at", "keep-clone", "swaps", "inserted", "inject-at", "nkeys", "clone"] {
+            for k in ["clone-at", "fork-at", "keep-clone", "swaps", "inserted", "inject-at", "nkeys", "clone", "sticky", "lie-at"] {
                 if let Some(v) = arg(&args, &format!("--{}", k)) {
                     extra.insert(k.to_string(), v.to_string());
                 }
             }
-            if prop == "C18" {
+            if prop == "C18" || extra.contains_key("sticky") || extra.contains_key("lie-at") {
                 track::set_heapy(flag(&args, "--heapy"));
                 println!("config: {}  ops: {}  extra: {:?}", cfg.describe(), ops_to_string(&ops), extra);
                 match c18::replay(&cfg, &ops, &extra) {
